@@ -253,7 +253,8 @@ class Matcher:
                 yield env
             return
         if k == 'P:param':
-            if d[0] == 'param' and (str(d[1]) == p[1] or d[2] == p[1] or p[1] == '_'):
+            # by position, by current name, or by the name the parameter had when the rules were written (a renamed parameter)
+            if d[0] == 'param' and (str(d[1]) == p[1] or d[2] == p[1] or p[1] == '_' or (PARAM_ALIAS and PARAM_ALIAS.get(p[1]) == d[1] and p[1] not in PARAM_CURRENT)):
                 yield env
             return
         if k == 'P:field':
@@ -364,6 +365,8 @@ import math
 DEFAULT = Matcher({'PI': math.pi, 'TAU': 2 * math.pi, 'FRAC_PI_2': math.pi / 2})
 
 
+PARAM_ALIAS = None     # {name when the rules were written: position} for the function being analysed (rules/param_names.json), set by rules.Ctx
+PARAM_CURRENT = ()     # the function's current parameter names: an old name is only an alias if no current parameter carries it
 EXPANDER = None      # set by rules.Ctx: d -> d with pure crate-local helpers and value combinators inlined (vpa/inline.py)
 
 
